@@ -110,3 +110,22 @@ Proof.
   split; [|vm_compute; reflexivity].
   intros i Hi. cbn in Hi. repeat (destruct Hi as [<-|Hi]; [vm_compute; lia|]). destruct Hi.
 Qed.
+
+(* ---------- about the code itself: the episode utilities as REGENERATED from the source on this
+   run (tools/gen_episodes.py -> Gen/EpisodesGen.v) are map_episodes of per-episode numpy slices,
+   so C03_map_episodes applies to them: one episode in, the same label out, order kept *)
+From PK Require Import SliceLib BridgeEpisodes.
+From PK.Gen Require Import EpisodesGen.
+
+Theorem C03_generated_utilities : forall (T : Type) (ep : bool) w nu (X : dmat T),
+  shift_episodes ep nu X
+    = (map_episodes ep (gen_shift_unshifted_ep T nu) X, map_episodes ep (gen_shift_shifted_ep T nu) X) /\
+  extract_ic ep w nu X = map_episodes ep (gen_extract_ic_ep T w nu) X /\
+  strip_ic ep w X = map_episodes ep (gen_strip_ic_ep T w) X /\
+  (forall E, (forall r, In r E -> length r = width E) ->
+     gen_extract_input_ep T nu E = map (fun r => if Nat.eqb nu 0 then [] else skipn (length r - nu) r) E).
+Proof.
+  intros. repeat split; [apply gen_shift_episodes_model | apply gen_extract_ic_episodes_model
+                        | apply gen_strip_ic_episodes_model | apply gen_extract_input_model].
+Qed.
+Print Assumptions C03_generated_utilities.
